@@ -254,12 +254,14 @@ def islands_world(variant):
         w["genes"].append({"id": "GE", "chr": "chr1", "strand": "+", "transcripts": [{"id": "TE", "exons": [[1, 300], [601, 900], [1201, 1500]]}]})
     syn.plant_for_transcripts(w)
     W.add_sites_for_blocks(w, "chr1", [ex[3], ex[5]], "+")
+    W.add_sites_for_blocks(w, "chr1", [ex[5], [5601, 5850]], "+")
     W.dedup_sites(w)
     reads = []
     for i in range(5):
         reads.append(W.read_of("ia_%d" % i, "chr1", ex[:3], polya=False))
         reads.append(W.read_of("ib_%d" % i, "chr1", ex[3:]))
         reads.append(W.read_of("in_%d" % i, "chr1", [ex[3], ex[5]]))
+        reads.append(W.read_of("ix_%d" % i, "chr1", [ex[3], ex[4], ex[5], [5601, 5850]]))     # novel exon beyond the gene end (island B only)
         if variant == 1:
             reads.append(W.read_of("ie_%d" % i, "chr1", [[1, 300], [601, 900], [1201, 1500]]))
     if variant == 2:
